@@ -178,6 +178,9 @@ def _define_components(region_data):
     if comps:
         start_component = np.max(comps) + 1
         components[none_idx] = np.arange(len(none_idx)) + start_component
+        # the array held None values and so has an object dtype, which
+        # cannot be written to a FITS table
+        components = components.astype(int)
     else:
         # all components are set to None - do not write a COMPONENT
         # column
